@@ -195,7 +195,7 @@ class Check:
         probe = cfg.replace('_deep', '').replace('_q5', '').replace('.cfg', '_probe.cfg')
         if probe != cfg and os.path.exists(os.path.join(tlcrun.SPEC, probe)) \
                 and probe not in self.extra.get('non_vacuity_probes_refuted', []):
-            pr = tlcrun.model_check(spec, probe, f'{self.pid}_{probe}', timeout=900, workers=4)
+            pr = tlcrun.model_check(spec, probe, f'{self.pid}_{probe}', timeout=900, workers=2)
             if 'Invariant ProbeFlat is violated' not in pr['out']:
                 raise MachineryError(f'{spec}/{probe}: the non-vacuity probe was not refuted '
                                      '(the configuration never builds a two-level diagram)')
